@@ -150,6 +150,7 @@ def main():
     ap.add_argument('--keep', action='store_true')
     ap.add_argument('--write-baseline', action='store_true', help='development only: record the obligation count of this (clean) run')
     ap.add_argument('--only', default=None, help='regex on harness names (development)')
+    ap.add_argument('--obl', default=None, help='regex on obligation ids (development; never used by registered commands)')
     args = ap.parse_args()
     prop = args.prop
     tier = args.tier if args.tier in ('quick', 'thorough') else 'quick'
@@ -213,6 +214,8 @@ def main():
     futs = []
     frame_fail = []
     for h in harnesses:
+        if args.obl:
+            h.obligations = [o for o in h.obligations if re.search(args.obl, o.oid) or o.kind == 'reach']
         if h.frame_problems:
             frame_fail.append((h, h.frame_problems))
         fl = discharge.run_harness(h, workdir, timeout=timeout, pool=pool)
@@ -257,7 +260,7 @@ def main():
             rc = 2
     if undec and rc == 0:
         rc = 2
-    if rc == 0 and baseline is not None and not args.only and n_obl < int(0.8 * baseline):
+    if rc == 0 and baseline is not None and not args.only and not args.obl and n_obl < int(0.8 * baseline):
         rc = 2
         msgs.append('only %d obligations generated, baseline is %d' % (n_obl, baseline))
     out_lines = []
